@@ -217,6 +217,33 @@ impl<C: SymBridge> Lab<C> for SymLab<C> {
     fn draw_scalar(&mut self, k: usize) -> Option<Scalar<C>> {
         symcore::with(|c| c.rng_log.get(k).map(|x| x.1)).map(|v| C::s_in(S(v)))
     }
+    fn draw_bytes(&mut self, k: usize) -> Option<Vec<u8>> {
+        symcore::with(|c| c.rng_log.get(k).copied()).map(|(len, v)| {
+            let mut out = vec![0u8; len];
+            out[..32].copy_from_slice(&symcore::block32(symcore::TAG_R, v));
+            out
+        })
+    }
+    fn eq_bytes(&mut self, a: &[u8], b: &[u8], what: &str) -> bool {
+        symcore::with(|c| {
+            let (sa, aa) = c.parse_pieces(a);
+            let (sb, ab) = c.parse_pieces(b);
+            if sa != sb || aa.len() != ab.len() {
+                let det = format!("byte strings differ in layout/literal bytes: {} vs {} pieces, lengths {} vs {}", sa.len(), sb.len(), a.len(), b.len());
+                c.record("ID", what, false, det.clone());
+                c.fail(what, det, false);
+                return false;
+            }
+            let mut ok = true;
+            for (x, y) in aa.iter().zip(ab.iter()) {
+                ok &= c.prove_eq(*x, *y, what);
+            }
+            if aa.is_empty() {
+                c.record("ST", what, true, "identical literal bytes".into());
+            }
+            ok
+        })
+    }
     fn note(&mut self, s: &str) {
         self.notes.push(s.to_string());
     }
